@@ -1,8 +1,8 @@
 package e2
 
 import (
-	"reflect"
 	"fmt"
+	"reflect"
 	"strings"
 	"testing"
 
